@@ -650,6 +650,8 @@ struct Oracle<'a> {
     removed_by_truncate: Vec<u32>,
     /// per tap: its last poll answered Pending (or the end) - it has nothing more to give right now
     idle: Vec<bool>,
+    /// per tap: polled at all during the current poll of the top stream
+    polled_now: Vec<bool>,
 }
 
 fn stage_tags(spec: &Stage, batched: bool) -> &'static str {
@@ -723,10 +725,14 @@ impl<'a> Oracle<'a> {
                     self.limit_seen[k] = Some(*v);
                 }
                 EvK::LimitEnd => {}
-                EvK::Pending => self.idle[e.tap] = true,
+                EvK::Pending => {
+                    self.idle[e.tap] = true;
+                    self.polled_now[e.tap] = true;
+                }
                 EvK::End => {
                     let k = e.tap;
                     self.idle[k] = true;
+                    self.polled_now[k] = true;
                     if !self.ended[k] {
                         let below_ended = if k == 0 { !self.src_alive } else { self.ended[k - 1] };
                         if !below_ended {
@@ -745,6 +751,7 @@ impl<'a> Oracle<'a> {
                 EvK::Item(ds) => {
                     let k = e.tap;
                     self.idle[k] = false;
+                    self.polled_now[k] = true;
                     if self.ended[k] {
                         return self.div("C08|C09|C10|C11|C12", format!("tap {k} yielded an item after its end"));
                     }
@@ -965,7 +972,12 @@ impl<'a> Oracle<'a> {
         // The top stream said Pending. A stage whose input stream was not Pending at its last poll stopped
         // early: what it shows is then judged against what its input holds *now* (for the first stage: the
         // vector's contents at this moment), not against what it happened to consume.
-        let busy: Vec<usize> = (0..self.n).filter(|j| !self.idle[*j]).collect();
+        let mut busy: Vec<usize> = (0..self.n).filter(|j| !self.idle[*j]).collect();
+        if busy.is_empty() && self.n >= 1 && !self.polled_now[0] && vals(&self.replicas[0]) != vals(contents) {
+            // the first stage answered without polling the source stream at all although the source has
+            // changed since: the same situation, the source stream cannot be blamed for what it was not asked
+            busy = vec![0];
+        }
         if busy.len() == 1 && !self.stop_for_known {
             let j = busy[0];
             let ambiguous = j > 0 && matches!(self.h.chain[j - 1], Stage::SortByKey);
@@ -1107,6 +1119,7 @@ fn run_inner(h: &AdpHistory, prop: &str, known: &Known) -> Result<AFacts, Div> {
         stop_for_known: false,
         removed_by_truncate: vec![],
         idle: vec![false; n + 1],
+        polled_now: vec![false; n + 1],
     };
     // construction may already have consumed events (DynPartsPolled): the initial values of that
     // stage are its view *after* those; replay the log for the taps below it first.
@@ -1153,6 +1166,9 @@ fn run_inner(h: &AdpHistory, prop: &str, known: &Known) -> Result<AFacts, Div> {
         let (flag, w) = if same_waker { (shared_waker.0.clone(), shared_waker.1.clone()) } else { flag_waker() };
         let wakes_before = flag.wakes.load(std::sync::atomic::Ordering::SeqCst);
         let mut cx = Context::from_waker(&w);
+        for x in o.polled_now.iter_mut() {
+            *x = false;
+        }
         let r = catch_unwind(AssertUnwindSafe(|| match top {
             Top::U(s) => s.as_mut().poll_next(&mut cx).map(|o| o.is_some()),
             Top::B(s) => s.as_mut().poll_next(&mut cx).map(|o| o.is_some()),
